@@ -20,8 +20,10 @@ What is proved here, for all inputs:
     on both sides (C04 as generalised for NC02a), every chunk size;
   * `hints_irrelevant_maps` — the selections behind the maps do not depend on the unique hints.
 `merge_correct_partial` / `merge_ordered_columns_correct` put these together per destination column of the ordered path;
-`merge_correct`, `hints_irrelevant`, `never_raises_on_truthful_hints` are the full statements over the whole-frame model
-function `merge` (front end, both paths, destination frame); their hypotheses are listed at the end of this file.
+`merge_frame_correct_partial`, `hints_irrelevant_partial`, `never_raises_on_truthful_hints_partial` are the statements over the
+whole-frame model function `merge` (front end, both paths, destination frame, all four modes). They are `_partial` for ONE
+reason, the open finding NC02c (an indexed-string entry longer than the streamed value buffer makes the hinted call raise);
+the full statements and every hypothesis are listed at the end of this file.
 -/
 namespace Exetera.Props.C02
 
@@ -289,7 +291,7 @@ example : Truthful true [1, 3, 4] ∧ Truthful false [1, 1] := ⟨fun _ => by de
     equal length and row `r` of the destination is (left row | empty, right row | empty) of the `r`-th relational-join
     row; a side that has no map field is copied unchanged.
     The hypotheses `hselL`/`hselR` are facts about `Spec.leftJoin`/`innerJoin`; they are discharged in
-    `merge_ordered_columns_correct`, and the whole frame is `merge_correct` (below). -/
+    `merge_ordered_columns_correct`, and the whole frame is `merge_frame_correct_partial` (below). -/
 theorem merge_correct_partial (how : String) (hhow : how = "left" ∨ how = "right" ∨ how = "inner") (lu ru : Bool)
     (lk rk : List Int) (hl : Sorted lk) (hr : Sorted rk) (hlu : Truthful lu lk) (hru : Truthful ru rk)
     (cs vf : Nat) (hcs : 1 ≤ cs) (inv : Int) (hinvL : (lk.length : Int) ≤ inv) (hinvR : (rk.length : Int) ≤ inv)
@@ -434,7 +436,7 @@ theorem ordered_path_key_order (how : String) (hhow : how = "left" ∨ how = "ri
 
 example : (relJoin "right" [0, 2, 2] [2, 5, 5]).map (rowKey [0, 2, 2] [2, 5, 5]) = [2, 2, 5, 5].map some := by decide
 
-/-! ## the whole destination frame: `merge_correct`, `hints_irrelevant`, `never_raises_on_truthful_hints` -/
+/-! ## the whole destination frame: `merge_frame_correct_partial`, `hints_irrelevant_partial`, `never_raises_on_truthful_hints_partial` -/
 
 /-- the names `merge` reserves for its own fields in the destination: the two map fields of the ordered path and the two
     validity flags of the unordered path -/
@@ -492,7 +494,12 @@ theorem getD_true {o : Option Bool} (h : o.getD false = true) : o = some true :=
   | none => cases h
   | some b => cases b <;> simp_all
 
-/-- **C02, `merge_correct`.** For every join mode left / right / inner / outer, every truthful combination of the four
+/-- **C02, `merge_correct` — partial because of NC02c only.** Full statement: the same with `WellFormed` not bounding the
+    length of indexed-string entries (`ColOK … cap` for any `cap`). That is false for the code as it is: on the ordered path
+    `ordered_map_valid_indexed_stream` raises its "entry does not fit the value buffer" `ValueError` for an entry longer
+    than `chunksize * value_factor` (2^23 bytes with the defaults) while the hint-free call succeeds (witness
+    `Exetera.Witness.C02.nc02c_long_entry_raises_only_with_hints`; open finding NC02c). Proved here, with that bound in
+    `WellFormed.leftCols` / `rightCols` (needed on the ordered path only): for every join mode left / right / inner / outer, every truthful combination of the four
     hints, all well-formed frames (single or compound keys, field subsets, name clashes, every field type incl. indexed
     strings), every chunk size ≥ 1, and — only where the call takes the unordered path — `pandas.merge` assumed to
     return a permutation of the relational join:
@@ -500,7 +507,7 @@ theorem getD_true {o : Option Bool} (h : o.getD false = true) : o = some true :=
     `relJoin how lk rk` — same multiset of (left columns | empty, right columns | empty) rows, every destination column
     of equal length, clashing names suffixed as documented. On the ordered path (`isOrdered`: both ordered hints, single
     key, mode ≠ outer) `rows` IS `relJoin how lk rk` in its own order, and the row keys are non-decreasing. -/
-theorem merge_correct (pandas : String → List Int → List Int → Except Err Pairs) (i : Input) (cs vf fuel : Nat)
+theorem merge_frame_correct_partial (pandas : String → List Int → List Int → Except Err Pairs) (i : Input) (cs vf fuel : Nat)
     (hwf : WellFormed i cs vf) (hth : TruthfulHints i) (hpd : isOrdered i = false → PandasOK pandas i)
     (hfuel : i.lk.length + i.rk.length + 2 * (relJoin i.how i.lk i.rk).length + 1 ≤ fuel) :
     ∃ dest rows, merge pandas i cs vf fuel = .ok dest ∧ rows.Perm (relJoin i.how i.lk i.rk) ∧ IsJoinFrame i dest rows ∧
@@ -592,32 +599,34 @@ theorem merge_correct (pandas : String → List Int → List Int → Except Err 
 /-- the same call without any hint -/
 def noHints (i : Input) : Input := { i with hintLO := none, hintLU := none, hintRO := none, hintRU := none }
 
-/-- **C02, `hints_irrelevant`.** With truthful hints `merge` produces the same table as the hint-free call: both succeed,
+/-- **C02, `hints_irrelevant` — partial because of NC02c only** (see `merge_frame_correct_partial`; the full statement has no
+    bound on entry lengths in `WellFormed`). With truthful hints `merge` produces the same table as the hint-free call: both succeed,
     both destinations are the table (`IsJoinFrame`: same fields, same documented names, every column the selected source
     rows) of a row list, and the two row lists are permutations of each other — the hints change which code runs (streamed
     generators vs `pandas.merge`) and the row order, never the multiset of (left columns, right columns) rows. -/
-theorem hints_irrelevant (pandas : String → List Int → List Int → Except Err Pairs) (i : Input) (cs vf fuel : Nat)
+theorem hints_irrelevant_partial (pandas : String → List Int → List Int → Except Err Pairs) (i : Input) (cs vf fuel : Nat)
     (hwf : WellFormed i cs vf) (hth : TruthfulHints i) (hpd : PandasOK pandas i)
     (hfuel : i.lk.length + i.rk.length + 2 * (relJoin i.how i.lk i.rk).length + 1 ≤ fuel) :
     ∃ dest dest0 rows rows0, merge pandas i cs vf fuel = .ok dest ∧ merge pandas (noHints i) cs vf fuel = .ok dest0 ∧
       rows.Perm rows0 ∧ IsJoinFrame i dest rows ∧ IsJoinFrame i dest0 rows0 := by
-  obtain ⟨dest, rows, a1, a2, a3, _⟩ := merge_correct pandas i cs vf fuel hwf hth (fun _ => hpd) hfuel
+  obtain ⟨dest, rows, a1, a2, a3, _⟩ := merge_frame_correct_partial pandas i cs vf fuel hwf hth (fun _ => hpd) hfuel
   have hwf0 : WellFormed (noHints i) cs vf :=
     ⟨hwf.how, hwf.tuples, hwf.tupleLen, hwf.leftOn, hwf.rightOn, hwf.leftKeys, hwf.rightKeys, hwf.leftCols, hwf.rightCols,
       hwf.names, hwf.sizeL, hwf.sizeR, hwf.chunk⟩
   have hth0 : TruthfulHints (noHints i) := ⟨nofun, nofun, nofun, nofun⟩
-  obtain ⟨dest0, rows0, b1, b2, b3, _⟩ := merge_correct pandas (noHints i) cs vf fuel hwf0 hth0 (fun _ => hpd) hfuel
+  obtain ⟨dest0, rows0, b1, b2, b3, _⟩ := merge_frame_correct_partial pandas (noHints i) cs vf fuel hwf0 hth0 (fun _ => hpd) hfuel
   exact ⟨dest, dest0, rows, rows0, a1, b1, a2.trans b2.symm, a3, ⟨b3.left, b3.right, b3.len, b3.cols⟩⟩
 
-/-- **C02, `never_raises_on_truthful_hints`.** Under the same hypotheses no error of any kind comes out of `merge`: no
+/-- **C02, `never_raises_on_truthful_hints` — partial because of NC02c only** (the full statement has no bound on entry
+    lengths in `WellFormed`; as found a hinted call raises for an entry above 2^23 bytes). Under the same hypotheses no error of any kind comes out of `merge`: no
     validation error, no `TypeError` / `ValueError` of the dispatch, no out-of-bounds access or exhausted fuel in a streamed
     generator or column mapper, no "field already exists". -/
-theorem never_raises_on_truthful_hints (pandas : String → List Int → List Int → Except Err Pairs) (i : Input)
+theorem never_raises_on_truthful_hints_partial (pandas : String → List Int → List Int → Except Err Pairs) (i : Input)
     (cs vf fuel : Nat) (hwf : WellFormed i cs vf) (hth : TruthfulHints i)
     (hpd : isOrdered i = false → PandasOK pandas i)
     (hfuel : i.lk.length + i.rk.length + 2 * (relJoin i.how i.lk i.rk).length + 1 ≤ fuel) :
     ∀ e, merge pandas i cs vf fuel ≠ .error e := by
-  obtain ⟨dest, _, h, _⟩ := merge_correct pandas i cs vf fuel hwf hth hpd hfuel
+  obtain ⟨dest, _, h, _⟩ := merge_frame_correct_partial pandas i cs vf fuel hwf hth hpd hfuel
   intro e he
   rw [h] at he
   cases he
@@ -723,13 +732,13 @@ theorem exInput_truthful (how : String) (hint : Option Bool) : TruthfulHints (ex
 example : isOrdered (exInput "left" (some true)) = true ∧ isOrdered (exInput "outer" (some true)) = false := by decide
 
 /-- the hypotheses of the three theorems are met by this input, on both paths -/
-example := merge_correct exPandas (exInput "left" (some true)) 2 8 64 (exInput_wf _ (Or.inl rfl) _)
+example := merge_frame_correct_partial exPandas (exInput "left" (some true)) 2 8 64 (exInput_wf _ (Or.inl rfl) _)
   (exInput_truthful _ _) (fun _ => exPandas_ok _) (by decide)
-example := merge_correct exPandas (exInput "outer" none) 2 8 64 (exInput_wf _ (Or.inr (Or.inr (Or.inr rfl))) _)
+example := merge_frame_correct_partial exPandas (exInput "outer" none) 2 8 64 (exInput_wf _ (Or.inr (Or.inr (Or.inr rfl))) _)
   (exInput_truthful _ _) (fun _ => exPandas_ok _) (by decide)
-example := hints_irrelevant exPandas (exInput "right" (some true)) 2 8 64 (exInput_wf _ (Or.inr (Or.inl rfl)) _)
+example := hints_irrelevant_partial exPandas (exInput "right" (some true)) 2 8 64 (exInput_wf _ (Or.inr (Or.inl rfl)) _)
   (exInput_truthful _ _) (exPandas_ok _) (by decide)
-example := never_raises_on_truthful_hints exPandas (exInput "inner" (some true)) 2 8 64
+example := never_raises_on_truthful_hints_partial exPandas (exInput "inner" (some true)) 2 8 64
   (exInput_wf _ (Or.inr (Or.inr (Or.inl rfl))) _) (exInput_truthful _ _) (fun _ => exPandas_ok _) (by decide)
 
 /-- what the model computes on it — ordered path, `how='left'`: rows in key order, the right map non-monotone -/
@@ -793,12 +802,20 @@ example := name_clash_rejected exPandas (exReserved (some true)) 2 8 64 (exReser
   decide)
 
 /-!
-## What the full statements assume (nothing is left `_partial`)
+## The full statements, what is `_partial` and why, and every hypothesis
 
-`merge_correct`, `hints_irrelevant`, `never_raises_on_truthful_hints` are proved above over the whole-frame model function
-`merge pandas i cs vf fuel`, for all four modes and both paths. `merge_correct_partial` (the earlier column-by-column form
-with the spec facts as hypotheses) is kept; `merge_ordered_columns_correct` is the same statement with those hypotheses
-discharged. The five gaps listed by the previous revision are closed by:
+```
+theorem merge_correct / hints_irrelevant / never_raises_on_truthful_hints :
+    exactly `merge_frame_correct_partial` / `hints_irrelevant_partial` / `never_raises_on_truthful_hints_partial` with
+    `WellFormed.leftCols` / `rightCols` asking `ColOK c n cap` for SOME cap (indexed-string entries of any length)
+```
+These are false for the code as it is (open finding NC02c, witness `Witness.C02.nc02c_long_entry_raises_only_with_hints`):
+with both ordered hints an indexed-string entry longer than `chunksize * value_factor` makes
+`ordered_map_valid_indexed_stream` raise (the clear error of fix D5, C04 `oversize_entry_clear_error`), the hint-free call
+succeeds. The `_partial` theorems carry exactly that bound and are otherwise at full strength: whole-frame model function
+`merge pandas i cs vf fuel`, all four modes, both paths. `merge_correct_partial` (the earlier column-by-column form with the
+spec facts as hypotheses) is kept; `merge_ordered_columns_correct` is the same statement with those hypotheses discharged.
+The five gaps listed by the previous revision are closed by:
   1. `Lemmas/MergeFrame.lean`: `addAll_ok`, `addAll_nil_ok`, `look_of_mem` (sequential `create_like`);
   2. `Lemmas/MergeWhole.lean`: `merge_front` (validators pass, `left_len = lk.length`, path choice);
   3. `Lemmas/MergeSpec.lean`: `relJoin_in_range`, `leftJoin_sel_of_nodup`; here `leftSel_in_range`, `rightSel_in_range`,
@@ -813,8 +830,8 @@ Hypotheses, all visible in `WellFormed` / `TruthfulHints` / `PandasOK` and in th
     already exists" while the hint-free call succeeds, a field called `valid_l` does the converse — finding NC02b. With
     fix NC02b `merge` checks exactly this up front and raises `ValueError` on both paths (`name_clash_rejected`), so the
     hypothesis is the code's own guard;
-  * an indexed-string entry fits the value buffer `cs * vf` of the streamed mapper (C04's supported regime: beyond it the
-    ordered path raises the clear error of `oversize_entry_clear_error`, the unordered path does not);
+  * an indexed-string entry fits the value buffer `cs * vf` of the streamed mapper — the hypothesis that makes the three
+    theorems `_partial` (NC02c, above);
   * fewer than 2^62 rows per side (the marker `INVALID_INDEX_64` must exceed every row number);
   * `fuel` at least `|lk| + |rk| + 2·|relJoin| + 1` (the streamed generators' variant, C12);
   * `lk` / `rk` are an order embedding of the key tuples (DESIGN 1.4): the tie between them and the key COLUMNS of the
